@@ -9,6 +9,7 @@ import itertools
 from collections import Counter
 
 import petl as etl
+from petl.util.materialise import cache as etl_cache
 
 from .. import refmodel as ref
 from .. import spaces
@@ -27,7 +28,11 @@ RULE = ('all ordered pairs (a, b) of rectangular tables: width 1 over K6 = {None
         'every column permutation of b for the record variants x row-container type of each side independently '
         '(tuple of tuples / list of lists / etl.wrap(list of lists) / etl.sort(list of lists) on an already sorted '
         'side), crossed with every call form incl. presorted on/off (form set "cont", on the <= 2-3-row blocks over '
-        'the reduced alphabets). states = (pair, call form, container combination) points; a pair is '
+        'the reduced alphabets) x operand kind of each side independently: additionally etl.sort(t, reverse=True), '
+        'etl.sort(t, <last field>), etl.sort(t, buffersize=1), cache(t) and a generator-backed Table, every '
+        'combination with at least one of them (65), under every call form incl. the hash variants, without '
+        'presorted for the re-ordering kinds (form set "kind"). states = (pair, call form, operand combination) '
+        'points; a pair is '
         'non-trivial when both sides are non-empty, some row of a occurs in b and some row of a does not. '
         'Excluded: non-rectangular tables (statement), unhashable cells (hash variants cannot take them), '
         'record variants on tables whose field sets differ (documented precondition); the order of the '
@@ -46,6 +51,38 @@ RENAMED = {1: ('p',), 2: ('p', 'q'), 3: ('p', 'q', 'r')}
 #   under the reference order, where the stable sort leaves the row sequence unchanged
 CONTAINERS = ('tuple', 'list', 'wrap', 'sortview')
 PLAIN = ('tuple', 'tuple')
+# operand-kind axis (form set 'kind'): the operand is itself a petl view over the list of lists; the set
+# operation is called WITHOUT presorted for the re-ordering kinds, so it has to establish the order itself
+#   'sort-rev'  etl.sort(t, reverse=True)   descending lexical sort view
+#   'sort-key'  etl.sort(t, <last field>)   sort view with a key (another order than the lexical one for width >= 2)
+#   'sort-buf1' etl.sort(t, buffersize=1)   lexical sort view served from chunk files
+#   'cache'     petl.util.materialise.cache(t)
+#   'gen'       a Table whose __iter__ returns a generator producing fresh list rows
+EXTRA_KINDS = ('sort-rev', 'sort-key', 'sort-buf1', 'cache', 'gen')
+ALL_KINDS = CONTAINERS + EXTRA_KINDS
+REORDERING = ('sort-rev', 'sort-key', 'sort-buf1')      # the operand's row sequence differs from the enumerated one
+
+
+class GenTable(etl.Table):
+    """A generator-backed table view: every iter() starts a new generator that builds the rows on the fly."""
+
+    def __init__(self, rows):
+        self.rows = rows
+
+    def __iter__(self):
+        return (list(r) for r in self.rows)
+
+
+def seen_rows(rows, kind):
+    """The row sequence of an operand of the given kind, computed with the reference order (not with petl)."""
+    rows = [tuple(r) for r in rows]
+    if kind == 'sort-rev':
+        return ref.stable_sort(rows, None, reverse=True)
+    if kind == 'sort-key':
+        return ref.stable_sort(rows, [len(rows[0]) - 1]) if rows else rows
+    if kind == 'sort-buf1':
+        return ref.stable_sort(rows)
+    return rows
 
 _ROWS = {}      # space name -> list of rows (the row alphabet)
 _SEED = 0
@@ -151,6 +188,16 @@ def _tbl(t, container='tuple'):
         return etl.wrap(lol)
     if container == 'sortview':
         return etl.sort(lol)
+    if container == 'sort-rev':
+        return etl.sort(lol, reverse=True)
+    if container == 'sort-key':
+        return etl.sort(lol, key=lol[0][-1])
+    if container == 'sort-buf1':
+        return etl.sort(lol, buffersize=1)
+    if container == 'cache':
+        return etl_cache(lol)
+    if container == 'gen':
+        return GenTable(lol)
     raise ValueError(container)
 
 
@@ -228,7 +275,7 @@ def judge(form, a, bgiven, obs=None, cont=PLAIN):
             bad.append(('multiset differs from Counter algebra', rs.show(ecnt), rs.show(Counter(orows)),
                         '%s [%s]: rows differ from the multiset definition' % (name, label)))
         elif form[0] in ('hashcomplement', 'hashintersection'):
-            if not rs.is_subsequence(orows, [tuple(r) for r in a[1]]):
+            if not rs.is_subsequence(orows, seen_rows(a[1], cont[0])):
                 bad.append(("not in a's order", 'a subsequence of a', orows,
                             "%s: output rows are not in a's order" % name))
     return bad
@@ -297,7 +344,9 @@ def _plan(tier):
                 ('w2', 'w1s', 2, 2, 'base', 'all'),
                 ('w3', 'w3', 2, 2, 'base', 'n+m<=3'),       # width 3: all 6 column permutations of b
                 ('w1s', 'w1s', 2, 2, 'cont', 'all'),        # row-container axis (15 non-plain combinations)
-                ('w2s', 'w2s', 2, 2, 'cont', 'n+m<=3')]
+                ('w2s', 'w2s', 2, 2, 'cont', 'n+m<=3'),
+                ('w1s', 'w1s', 2, 2, 'kind', 'n+m<=3'),     # operand-kind axis (65 combinations with a view kind)
+                ('w2s', 'w2s', 2, 2, 'kind', 'n+m<=3')]
     return [('w1', 'w1', 3, 3, 'base', 'all'),
             ('w1', 'w1', 3, 3, 'buf', 'n+m<=5'),
             ('w1s', 'w1s', 3, 3, 'buf', 'n+m==6'),
@@ -311,7 +360,9 @@ def _plan(tier):
             ('w1s', 'w1s', 4, 4, 'base', '4 rows on one side, n+m==7'),
             ('w3', 'w3', 2, 2, 'base', 'all'),
             ('w1s', 'w1s', 3, 3, 'cont', 'all'),
-            ('w2s', 'w2s', 2, 2, 'cont', 'all')]
+            ('w2s', 'w2s', 2, 2, 'cont', 'all'),
+            ('w1s', 'w1s', 2, 2, 'kind', 'all'),
+            ('w2s', 'w2s', 2, 2, 'kind', 'all')]
 
 
 def items(tier, seed):
@@ -321,7 +372,7 @@ def items(tier, seed):
     for tot in range(0, 9):
         for sa, sb, maxn, maxm, fs, sel in plan:
             ra, rb = len(_ROWS[sa]), len(_ROWS[sb])
-            target = {'base': 1500, 'buf': 350, 'cont': 100}[fs]
+            target = {'base': 1500, 'buf': 350, 'cont': 100, 'kind': 16}[fs]
             if sa == 'w3':
                 target = 700
             for n in range(0, maxn + 1):
@@ -343,6 +394,8 @@ def bounds(tier, seed):
         pairs[k] = pairs.get(k, 0) + (hi - lo) * len(_ROWS[sb]) ** m
     return {'blocks': [list(map(str, b)) for b in _plan(tier)], 'pairs_per_block': pairs,
             'row_containers': list(CONTAINERS), 'container_combinations_in_cont_blocks': len(CONTAINERS) ** 2 - 1,
+            'operand_kinds': list(ALL_KINDS),
+            'kind_combinations_in_kind_blocks': len(ALL_KINDS) ** 2 - len(CONTAINERS) ** 2,
             'column_permutations': {w: _perms(w) for w in (1, 2, 3)},
             'alphabets': {k: [list(map(repr, r)) for r in v] for k, v in _ROWS.items()}}
 
@@ -370,23 +423,29 @@ def case_of(form, a, bgiven, law=None, sig=None, cont=PLAIN):
 
 
 def container_combos(fs, asorted, bsorted):
-    """Row-container combinations of one pair: plain tuples for the 'base'/'buf' form sets; every other
-    combination for 'cont' ('sortview' only on a side whose rows are already in reference order)."""
-    if fs != 'cont':
+    """Operand combinations of one pair: plain tuples for the 'base'/'buf' form sets; every other combination
+    of the four row containers for 'cont'; every combination with at least one view kind for 'kind'
+    ('sortview' only on a side whose rows are already in reference order)."""
+    if fs not in ('cont', 'kind'):
         return [PLAIN]
+    kinds = CONTAINERS if fs == 'cont' else ALL_KINDS
     out = []
-    for ca in CONTAINERS:
+    for ca in kinds:
         if ca == 'sortview' and not asorted:
             continue
-        for cb in CONTAINERS:
+        for cb in kinds:
             if cb == 'sortview' and not bsorted:
                 continue
-            if (ca, cb) != PLAIN:
+            if fs == 'cont' and (ca, cb) != PLAIN:
+                out.append((ca, cb))
+            if fs == 'kind' and (ca in EXTRA_KINDS or cb in EXTRA_KINDS):
                 out.append((ca, cb))
     return out
 
 
 def group_of(name, sig, cont):
+    if cont[0] in EXTRA_KINDS or cont[1] in EXTRA_KINDS:
+        return '%s | %s [operand is a petl view]' % (name, sig)
     return '%s | %s%s' % (name, sig, '' if cont == PLAIN else ' [rows not plain tuples]')
 
 
@@ -404,10 +463,11 @@ def run_item(item, acc):
         for bi, brows in enumerate(btables):
             b = (bhdr, brows)
             nt = nontrivial(a, b)
-            both = asorted and bsorted[bi]
-            todo = forms + pre if both else forms
             sig = []
             for cont in container_combos(fs, asorted, bsorted[bi]):
+                # presorted=True is only legitimate when both operands deliver their rows in reference order
+                both = asorted and bsorted[bi] and cont[0] not in REORDERING and cont[1] not in REORDERING
+                todo = forms + pre if both else forms
                 keep = {}
                 for form in todo:
                     bgiven = make_b(form, a, b)
@@ -481,6 +541,10 @@ def vacuity(cov, tier):
             for kind in ('nt-rows', 'nt-presorted-rows'):
                 if not c.get('%s:%s/%s' % (kind, ca, cb)):
                     problems.append('no non-trivial case for %s %s/%s' % (kind, ca, cb))
+    for ca in ALL_KINDS:
+        for cb in ALL_KINDS:
+            if not c.get('nt-rows:%s/%s' % (ca, cb)):
+                problems.append('no non-trivial case for operand kinds %s/%s' % (ca, cb))
     for w in (1, 2, 3):
         for perm in _perms(w):
             if not c.get('nt-perm:w%d:%s' % (w, perm)):
